@@ -185,7 +185,30 @@ def r06_7(ctx):
     ctx.floor("R06.7", "frameset-modes-delegating-characters", n, 1)
 
 
+def r06_8(ctx):
+    """'clear the stack back to a table / table body / table row context' never pops the html element or out of a template:
+    every set handed to pop_until_current contains html and template (otherwise the next element is inserted as a child of html)"""
+    from .C02 import tag_set_fns, resolve
+    sets = tag_set_fns(ctx)
+    key, step = nfq.cells(ctx, TB, "rules::TreeBuilder<Handle,Sink>::step")
+    used = set()
+    for pc in step:
+        for a, args in pc["actions"]:
+            if a == "self.pop_until_current" and args:
+                used.add(str(args[0]))
+    for name in sorted(used):
+        mem = resolve(sets, name)
+        names = {x[1] for x in mem if x[0] == "html"} if mem is not None else set()
+        ok = mem is not None and {"html", "template"} <= names
+        ctx.ob("R06.8", "stack-clearing-context-stops-at-html-and-template/" + name, ok, "%s = %s" % (name, sorted(names)) if ok else
+               "the context set %s (%s) lacks %s: clearing the stack back to it can pop the template / body / html boundary, and the following element becomes a child of html" % (
+                   name, sorted(names), sorted({"html", "template"} - names)), "html5ever tree_builder tag_sets " + name)
+    ctx.floor("R06.8", "stack-clearing-contexts", len(used), 3)
+
+
 def run(ctx):
+    ctx.rule("R06.8", "the sets that bound 'clear the stack back to a ... context' contain html and template")
+    ctx.guard("R06.8", "contexts", lambda: r06_8(ctx))
     ctx.rule("R06.7", "in a frameset document no formatting element is reconstructed under html")
     ctx.guard("R06.7", "frameset-formatting", lambda: r06_7(ctx))
     ctx.rule("R06.1", "only comments and the create_root element are appended to the document; create_root once, leaving BeforeHtml")
